@@ -93,6 +93,12 @@ variable {K : Type} [Field K] [LinearOrder K] [IsStrictOrderedRing K] [FloorRing
 def dn (img t dc dcnu prnu bias fwc gain : K) (bits : Int) : Int :=
   castU (Generated.C16.castBits bits) ⌊Generated.C16.exposePre img t dc dcnu prnu bias fwc gain bits⌋
 
+/-- `dn` over the generated chain is the executable model's `expose` (the function the driver runs on doubles) -/
+theorem dn_eq_model (img t dc dcnu prnu bias fwc gain : K) (bits : Int) :
+    dn img t dc dcnu prnu bias fwc gain bits = Model.C16.expose (fun x : K => ⌊x⌋) img t dc dcnu prnu bias fwc gain bits := by
+  unfold dn Model.C16.expose
+  rw [gen_expose, gen_cast_bits]
+
 /-- DN lie in `[0, 2^bits − 1]` for every bit depth 1…32 and EVERY input (any image value however far
 above full well or ADC range, any gain, bias, full-well capacity, non-uniformity) -/
 theorem dn_in_range (bits : Int) (h1 : 1 ≤ bits) (h32 : bits ≤ 32) (img t dc dcnu prnu bias fwc gain : K) :
